@@ -1,19 +1,26 @@
 from common import COMMON_TRUST
 
 PROP = {
-    "generated": ["RouteTables"],
-    "lean_modules": ["SwimVerif.Model.Route", "SwimVerif.Model.RouteMon", "SwimVerif.Proofs.Route",
-                     "SwimVerif.Generated.RouteTables"],
+    "generated": ["RouteTables", "MetaRoutes"],
+    "lean_modules": ["SwimVerif.Model.Route", "SwimVerif.Model.RouteMon", "SwimVerif.Model.RoutePlane",
+                     "SwimVerif.Proofs.Route", "SwimVerif.Proofs.RoutePlane", "SwimVerif.Proofs.RoutePlaneMeta",
+                     "SwimVerif.Generated.RouteTables", "SwimVerif.Generated.MetaRoutes"],
     "engines": [
         {"name": "route-random", "crate": "core", "bin": "sv-c18", "machine": "c18",
          "features": [], "cases": {"quick": 24000, "thorough": 1600000}, "min_shard": 1500},
         {"name": "route-table", "crate": "core", "bin": "sv-c18", "machine": "c18", "shards": 1,
          "cases": {"quick": 1, "thorough": 1}, "nontrivial_min_ops": 1,
          "gen_args": {"quick": ["table", "3"], "thorough": ["table", "4"]}},
+        # plane level: the real PlaneBuilder / check_meta_collisions / ServerBuilder::build and the server's route
+        # table (Routes + register_introspection + find_route through the verif_hooks re-export of swimos_server_app)
+        {"name": "plane-random", "crate": "store", "bin": "sv-c18p", "machine": "c18p", "features": [],
+         "cases": {"quick": 24000, "thorough": 800000}, "min_shard": 1500, "nontrivial_min_ops": 2},
     ],
     "rule": "a case is one pattern pair with its parse/ambiguity/round-trip/match ops (or one row of the exhaustive "
             "character/byte tables), all generated from one SplitMix64 seed; distinct = distinct op sequence (sha1), "
-            "non-trivial = at least 3 ops (1 for table rows)",
+            "non-trivial = at least 3 ops (1 for table rows); plane-random: a case is one route "
+            "table (0-4 patterns, most derived from the meta-agent routes) with build / meta / srv verdicts and find "
+            "ops on URIs synthesised from its rows and from the meta routes, non-trivial = at least 2 ops",
     "level_text": "Proof (all inputs of the model): percent decode . encode = id for every byte string with the "
                   "encode set read from source; apply-then-unapply returns exactly the parameter values for every "
                   "pattern with /-free literals and percent-normal distinct names and every map of non-empty strings, "
@@ -22,22 +29,35 @@ PROP = {
                   "empty string; matching depends on (scheme, path) only; one binding per parameter for every "
                   "accepted pattern; two patterns that match one URI are always reported ambiguous; a route table "
                   "accepted by PlaneBuilder::build matches every URI with at most one pattern, so find_route's first "
-                  "match is the only one; every pattern accepted by the parser automaton satisfies the structural "
-                  "side conditions. (F12, F12b, F12c repaired by fix: commits; their witnesses are regressions.) Tied "
+                  "match is the only one; with introspection, a table accepted by build and "
+                  "check_meta_collisions together with the node and lane meta-agent routes (texts and registration "
+                  "order read from source) still matches every URI with at most one row, so no URI is claimed both by "
+                  "a user route and by one of those two meta routes (false for the third registered meta route, "
+                  "swimos:meta:mesh, which check_meta_collisions does not look at: F12d, known finding with witness "
+                  "and proved partial statement); every pattern accepted by the parser automaton satisfies the "
+                  "structural side conditions. (F12, F12b, F12c repaired by fix: commits; their witnesses are regressions.) Tied "
                   "to the real RoutePattern/RouteUri by differential execution of parse_str, apply, unapply_str, "
                   "unapply_route_uri, are_ambiguous and RouteUri::from_str on generated patterns, maps, pattern "
-                  "pairs with synthesised URIs, malformed patterns, and exhaustive character/byte tables.",
+                  "pairs with synthesised URIs, malformed patterns, and exhaustive character/byte tables; and of "
+                  "PlaneBuilder::build, PlaneModel::check_meta_collisions, ServerBuilder::build and the server's "
+                  "route table (Routes::from_iter + register_introspection + Routes::find_route) on generated "
+                  "route tables and URIs.",
     "level_note": "The percent-encoding crate, String::from_utf8_lossy and the nom combinators are modelled (byte "
                   "level, exact on the harness inputs) and not verified; patterns are modelled as byte automata, "
                   "equal to the char-level code on valid UTF-8 because every distinguished character is ASCII; "
-                  "PlaneBuilder::build / Routes::find_route are modelled as pure functions over the pattern list and "
-                  "not driven in the harness.",
+                  "the server's route table is assembled by a verif_hooks function from the same pieces as "
+                  "SwimServer::run_server (two lines of glue are duplicated, see hooks/C18x.patch); agents are never "
+                  "started.",
     "trusted_base": COMMON_TRUST + [
         "modelled, not verified: percent-encoding 2.3.2 (utf8_percent_encode, percent_decode_str), "
         "String::from_utf8_lossy, nom 7 combinators (opt/alt/many0_count/many1_count/recognize), "
         "std::collections::HashMap (finite map)",
         "tools/extractors/c18.py: URL_ENCODE from route_pattern/mod.rs + NON_ALPHANUMERIC from the registry copy of "
-        "percent-encoding at the Cargo.lock version; schema/path/query character classes from route_uri/parser/mod.rs",
+        "percent-encoding at the Cargo.lock version; schema/path/query character classes from route_uri/parser/mod.rs; "
+        "the three meta-agent pattern texts from swimos_introspection/src/route/mod.rs and their registration order "
+        "from register_introspection",
+        "swimos_server_app::verif::RouteTable (hooks/C18x.patch): Routes::from_iter + register_introspection as in "
+        "SwimServer::run_server, then the real Routes::find_route",
     ],
     "assumptions": ["pattern and route strings are valid UTF-8 (they are Rust `str`s)",
                     "HashMap<String, String> behaves as a finite map (iteration order is never observed: bindings are "
